@@ -121,7 +121,7 @@ theorem c09_concrete_rekey_of_unknown_child (request : Msg) (s : HSt) (sa : List
     (tl : List (Nat × Bytes × Bytes))
     (h1 : paySA request true = .ok sa) (h2 : payTS request ptTSi true = .ok tsi) (h3 : payTS request ptTSr true = .ok tsr)
     (hst : ¬ (s.me.core.st = stREK_IKE_SA_REQ_SENT ∨ s.me.core.st = stDEL_IKE_SA_REQ_SENT))
-    (hn : getNotifies request nREKEY_SA true = (proto, spi, d) :: tl) (hk : getKid s.me.ext.kids spi = none) :
+    (hn : getNotifies request nREKEY_SA true = (proto, spi, d) :: tl) (hk : getKidOut s.me.ext.kids spi = none) :
     childNegotiationReq request s = (.ok [mkNotify proto nCHILD_SA_NOT_FOUND spi []], s) :=
   childNegotiationReq_of_prelude_error request s sa tsi tsr _ h1 h2 h3 hst
     (childRekeyPrelude_unknown request sa tsi tsr s proto spi d tl hn hk) ⟨proto, nCHILD_SA_NOT_FOUND, spi, [], rfl, Or.inl rfl⟩
@@ -131,11 +131,48 @@ theorem c09_concrete_rekey_crossing_own_delete_or_rekey (request : Msg) (s : HSt
     (spi d : Bytes) (tl : List (Nat × Bytes × Bytes)) (old : Child)
     (h1 : paySA request true = .ok sa) (h2 : payTS request ptTSi true = .ok tsi) (h3 : payTS request ptTSr true = .ok tsr)
     (hst : ¬ (s.me.core.st = stREK_IKE_SA_REQ_SENT ∨ s.me.core.st = stDEL_IKE_SA_REQ_SENT))
-    (hn : getNotifies request nREKEY_SA true = (proto, spi, d) :: tl) (hk : getKid s.me.ext.kids spi = some old)
+    (hn : getNotifies request nREKEY_SA true = (proto, spi, d) :: tl) (hk : getKidOut s.me.ext.kids spi = some old)
     (hb : (s.me.core.st = stDEL_CHILD_REQ_SENT ∧ s.me.ext.deleting.map (childEq old) = some true) ∨
           (s.me.core.st = stREK_CHILD_REQ_SENT ∧ s.me.ext.rekeying.map (childEq old) = some true)) :
     childNegotiationReq request s = (.ok [mkNotify 0 nTEMPORARY_FAILURE [] []], s) :=
   childNegotiationReq_of_prelude_error request s sa tsi tsr _ h1 h2 h3 hst
     (childRekeyPrelude_busy request sa tsi tsr s proto spi d tl old hn hk hb) ⟨0, nTEMPORARY_FAILURE, [], [], rfl, Or.inr rfl⟩
+
+/-! ### which CHILD_SA a DELETE from the peer names
+
+Each end chooses the SPIs of its own inbound SAs, so the same 4-octet value may be the inbound SPI of one CHILD_SA and the
+outbound SPI of another.  The peer names a CHILD_SA by the SPI of *its* inbound SA (RFC 7296 1.4.1) — our outbound one.
+(The pinned tree matched the value against both directions and deleted the wrong CHILD_SA when values coincided: D17.) -/
+
+/-- a DELETE naming `spi` removes the first CHILD_SA whose *outbound* SPI is `spi` (when its protocol is the payload's), and
+    answers with that CHILD_SA's inbound SPI -/
+theorem c09_concrete_delete_names_our_outbound_spi (proto : Nat) (spi : Bytes) (acc : List Payload) (s : HSt) (c : Child)
+    (hk : getKidOut s.me.ext.kids spi = some c) (hp : c.proposal.proto = proto) :
+    c.outSpi = spi ∧ c ∈ s.me.ext.kids ∧
+    deleteSpis proto [spi] acc s = (.ok (acc ++ [mkP ptDELETE (.delete proto [c.inSpi])]), (untrackChild c s).2) := by
+  refine ⟨?_, ?_, ?_⟩
+  · have := List.find?_some hk; exact (by simpa using this : spi = c.outSpi).symm
+  · exact List.mem_of_find?_eq_some hk
+  · simp only [deleteSpis, HM.bind_def, getMe, hk, hp, if_true, HM.pure_def]
+    cases h : untrackChild c s with
+    | mk r s' =>
+      have : r = .ok () := by
+        unfold untrackChild at h; split at h <;> · cases h; rfl
+      subst this; rfl
+
+/-- a value that is nobody's outbound SPI deletes nothing — in particular not the CHILD_SA that has it as its inbound SPI -/
+theorem c09_concrete_delete_ignores_our_inbound_spis (proto : Nat) (spi : Bytes) (acc : List Payload) (s : HSt)
+    (hk : ∀ c ∈ s.me.ext.kids, c.outSpi ≠ spi) :
+    deleteSpis proto [spi] acc s = (.ok acc, s) := by
+  have : getKidOut s.me.ext.kids spi = none := by
+    unfold getKidOut; rw [List.find?_eq_none]; intro c hc; simpa using fun h => hk c hc h.symm
+  simp only [deleteSpis, HM.bind_def, getMe, this, HM.pure_def]
+
+/-- non-vacuity: two CHILD_SAs, the first with inbound SPI `v`, the second with outbound SPI `v`: a DELETE naming `v` finds the second -/
+example :
+    let p : Proposal := ⟨1, 3, [], []⟩
+    let k1 : Child := ⟨[1, 2, 3, 4], [9, 9, 9, 9], p, p, [], [], 1, 0⟩
+    let k2 : Child := ⟨[5, 6, 7, 8], [1, 2, 3, 4], p, p, [], [], 1, 0⟩
+    getKidOut [k1, k2] [1, 2, 3, 4] = some k2 ∧ getKid [k1, k2] [1, 2, 3, 4] = some k1 := by decide
 
 end PyIkev2.Props.C09
